@@ -283,6 +283,30 @@ func witnessGoal(g *Term, pool []*Term) *Term {
 				alts = append(alts, witnessGoal(inst, pool))
 			}
 		}
+		// for a single integer variable also try the "interesting" integers of the query: the
+		// witnesses named by the assumptions (Skolem applications), slice lengths, loop indices
+		if len(g.Q.Vars) == 1 && g.Q.Vars[0].Sort == SInt {
+			v := g.Q.Vars[0]
+			for _, gt := range pool {
+				if gt.Sort != SInt || len(alts) >= 40 {
+					continue
+				}
+				ok := strings.HasPrefix(gt.Op, "sk_") || gt.Op == "sl-len" || strings.HasPrefix(gt.Op, "r_t") || strings.HasPrefix(gt.Op, "lv_")
+				if !ok && gt.Op == "select" && len(gt.Args) == 2 && (strings.HasPrefix(resolve(gt.Args[0]).Op, "perm")) {
+					ok = true
+				}
+				if !ok {
+					continue
+				}
+				inst := substTerm(g.Q.Body, map[*Term]*Term{v: gt}, map[*Term]*Term{})
+				k := inst.String()
+				if seen[k] {
+					continue
+				}
+				seen[k] = true
+				alts = append(alts, witnessGoal(inst, pool))
+			}
+		}
 		if len(alts) == 0 {
 			return g
 		}
